@@ -254,6 +254,10 @@ func VerifyUnit(prog *Program, cs *ContractSet, uc *UnitContract) *UnitResult {
 			if !on(en.Tags) {
 				continue
 			}
+			if en.Assumed {
+				x.trustedUsed[fmt.Sprintf("%s/post:%s is assumed, not proved (bounded stand-in): %s", uc.ID(), en.Name, en.Text)] = true
+				continue
+			}
 			x.assert(final, x.specBool(en, final, spOut), "post", fmt.Sprintf("%s/post:%s", uc.ID(), en.Name), en.Tags, token.NoPos, en.Text)
 		}
 		// frame: everything written must be covered by a modifies clause
